@@ -100,7 +100,7 @@ def history(rng, inst, n):
             for a in rng.sample(acs, rng.randint(1, len(acs))):
                 recs.append(dict(id=a, power=rng.choice([0, 1]), mode=rng.choice(range(5)), fan=rng.choice(range(7)), spill=rng.choice([0, 1]),
                                  timer=rng.choice([0, 1]), setpoint=rng.randint(*lim[a]), temp=rng.choice([235, 0, -55, 301, 999, 180]),
-                                 err=rng.choice([0, 0, 0, 5, 300])))
+                                 err=rng.choice([0, 0, 0, 5, 7, 300])))
             steps.append(("ac", recs))
         elif r < 0.5 and zs:
             recs = []
@@ -115,7 +115,8 @@ def history(rng, inst, n):
                 return None if rng.random() < 0.4 else (rng.randint(0, 23), rng.randint(0, 59))
             steps.append(("timer", {a: (tm(), tm()) for a in acs}))
         elif r < 0.67:
-            steps.append(("err", rng.choice(acs), rng.choice([b"E5", b"ER: 01", b"fault 7"])))
+            # (an empty text is what a console answers when it has no description for the code now active)
+            steps.append(("err", rng.choice(acs), rng.choice([b"E5", b"ER: 01", b"fault 7", b"", b""])))
         elif r < 0.72:
             steps.append(("ver", rng.choice([0, 1]), [rng.choice(["1.2.3", "2.0", "10.11"])]))
         else:
